@@ -837,13 +837,177 @@ NewFamilyCoverage ==
   /\ \A via \in LSVias, ex \in {"break", "continue"} : \E q \in LSCases : q.via = via /\ q.ex = ex /\ q.d > 1 /\ q.tg < q.d
   /\ \A en \in {"none", "for", "forof"}, pl \in {"top", "fn"} : \E q \in LSCases : q.en = en /\ q.pl = pl
 
+\* ======================= family CP: where, inside a closure, the only mention of the captured variable stands =================
+\* (round 3, reviewer) The closure g mentions the captured variable x exactly once; pos says in which slot of which node: operand
+\* of a binary / unary / logical / conditional operator, source of an assignment, object / computed key / value of a member read,
+\* write or update, callee, argument, receiver, computed method key, argument of `new`, element / property value of a literal,
+\* comma operand, initialiser, condition of if / while / do-while / for, right-hand side of for-in / for-of, switch discriminant,
+\* case test, throw argument - and the target slots: `x = `, `x += `, `x++`, `--x`, `for (x in ..)`, `for (x of ..)`.
+\* The owner writes x after g exists (g must see it), g runs before and after; two activations.
+\*   kd  : x is the owner's parameter / local / the owner's local reached through a middle function that does not mention it
+\*   lvl : g (and the middle function) is a function expression / an arrow with a block / an arrow with an expression body
+CPPosInt == {"id", "binl", "binr", "neg", "andr", "orl", "orr", "conda", "condb", "asgr", "casgr", "memk", "masgk", "masgr", "mupdk",
+             "arg", "metharg", "arrel", "objval", "comma", "eql", "wasg", "wcasg", "wupd", "wupdpre"}
+CPPosBool == {"not", "andl", "condt"}
+CPPosArr == {"memo", "doto", "masgo", "mupdo"}
+CPPosOther == {"callee", "recv", "methk", "newarg", "typeof"}
+CPExprPos == CPPosInt \cup CPPosBool \cup CPPosArr \cup CPPosOther
+CPStmtPos == {"varinit", "ifc", "whilec", "doc", "fortest", "forinrhs", "forofrhs", "swdisc", "swcase", "throw", "wforin", "wforof"}
+CPPositions == CPExprPos \cup CPStmtPos
+CPVt(pos) == CASE pos \in CPPosBool \cup {"ifc", "whilec", "doc", "fortest"} -> "bool"
+               [] pos \in CPPosArr \cup {"forinrhs", "forofrhs"} -> "arr"
+               [] pos = "callee" -> "fun" [] pos = "recv" -> "obj" [] pos \in {"methk", "newarg"} -> "str" [] pos = "typeof" -> "mix"
+               [] OTHER -> "int"
+CPVal(vt, k) == CASE vt = "int" -> I(k) [] vt = "bool" -> EBool(k = 2) [] vt = "str" -> EStr(IF k = 1 THEN "m1" ELSE "m2")
+                  [] vt = "arr" -> Var(IF k = 1 THEN "A1" ELSE "A2") [] vt = "fun" -> Var(IF k = 1 THEN "F1" ELSE "F2")
+                  [] vt = "obj" -> Var(IF k = 1 THEN "O1" ELSE "O2") [] vt = "mix" -> (IF k = 1 THEN I(1) ELSE EStr("s"))
+AR == Var("ar")
+CPExpr(pos) ==
+  CASE pos = "id" -> X [] pos = "binl" -> Plus(X, I(100)) [] pos = "binr" -> Plus(I(100), X) [] pos = "neg" -> Un("-", X)
+    [] pos = "not" -> Not(X) [] pos = "andl" -> And(X, I(7)) [] pos = "andr" -> And(I(1), X) [] pos = "orl" -> Or(X, I(7)) [] pos = "orr" -> Or(I(0), X)
+    [] pos = "condt" -> Cond(X, I(1), I(2)) [] pos = "conda" -> Cond(EBool(TRUE), X, I(0)) [] pos = "condb" -> Cond(EBool(FALSE), I(0), X)
+    [] pos = "asgr" -> Asg("y", X) [] pos = "casgr" -> CAsg("+", "y", X)
+    [] pos = "memo" -> Mem(X, I(0)) [] pos = "memk" -> Mem(AR, X) [] pos = "doto" -> Dot(X, "length")
+    [] pos = "masgo" -> MAsg(Mem(X, I(0)), I(5)) [] pos = "masgk" -> MAsg(Mem(AR, X), I(5)) [] pos = "masgr" -> MAsg(Mem(AR, I(0)), X)
+    [] pos = "mupdo" -> MUpd("++", FALSE, Mem(X, I(0))) [] pos = "mupdk" -> MUpd("++", TRUE, Mem(AR, X))
+    [] pos = "callee" -> Call(X, <<I(1)>>) [] pos = "arg" -> Call(Var("id"), <<X>>) [] pos = "recv" -> Call(Dot(X, "m"), <<I(1)>>)
+    [] pos = "methk" -> Call(Mem(Var("ob"), X), <<I(1)>>) [] pos = "metharg" -> Call(Dot(Var("ob"), "m1"), <<X>>)
+    [] pos = "newarg" -> Dot(New(Var("Error"), <<X>>), "message")
+    [] pos = "arrel" -> Mem(Arr(<<I(0), X>>), I(1)) [] pos = "objval" -> Dot(Obj(<<"a">>, <<X>>), "a") [] pos = "comma" -> Comma(<<I(0), X>>)
+    [] pos = "typeof" -> TypeOf(X) [] pos = "eql" -> Bin("===", X, I(2))
+    [] pos = "wasg" -> Asg("x", I(7)) [] pos = "wcasg" -> CAsg("+", "x", I(7)) [] pos = "wupd" -> Upd("++", FALSE, "x") [] pos = "wupdpre" -> Upd("--", TRUE, "x")
+CPStmts(pos) ==
+  CASE pos = "varinit" -> <<SVar1("t", X), SRet(Var("t"))>>
+    [] pos = "ifc" -> <<SIf(X, SBlock(<<SRet(I(1))>>), NoS), SRet(I(2))>>
+    [] pos = "whilec" -> <<SWhile(X, SBlock(<<SRet(I(1))>>)), SRet(I(2))>>
+    [] pos = "doc" -> <<SVar1("t", I(0)), SDo(SBlock(<<Inc("t"), SIf(Bin("==", Var("t"), I(2)), SBlock(<<SBreak("")>>), NoS)>>), X), SRet(Var("t"))>>
+    [] pos = "fortest" -> <<SFor(NoS, X, NoE, SBlock(<<SRet(I(1))>>)), SRet(I(2))>>
+    [] pos = "forinrhs" -> <<SForIn(TRUE, "k", X, SBlock(<<SLog(Var("k"))>>)), SRet(I(0))>>
+    [] pos = "forofrhs" -> <<SForOf(TRUE, "k", X, SBlock(<<SLog(Var("k"))>>)), SRet(I(0))>>
+    [] pos = "swdisc" -> <<SSwitch(X, <<Case(I(1), <<SRet(EStr("one"))>>), Case(I(2), <<SRet(EStr("two"))>>)>>), SRet(EStr("none"))>>
+    [] pos = "swcase" -> <<SSwitch(I(2), <<Case(X, <<SRet(EStr("hit"))>>)>>), SRet(EStr("miss"))>>
+    [] pos = "throw" -> <<STry(SBlock(<<SThrow(X)>>), "e", SBlock(<<SRet(Var("e"))>>), NoS), SRet(I(0))>>
+    [] pos = "wforin" -> <<SForIn(FALSE, "x", Obj(<<"a", "b">>, <<I(1), I(2)>>), SBlock(<<>>)), SRet(I(0))>>
+    [] pos = "wforof" -> <<SForOf(FALSE, "x", Arr(<<I(7), I(8)>>), SBlock(<<>>)), SRet(I(0))>>
+CPFn(lvl, body) == IF lvl = "fn" THEN Fun("", <<>>, body) ELSE Arrow(<<>>, body)
+CPClosure(c) == IF c.pos \in CPStmtPos THEN CPFn(c.lvl, CPStmts(c.pos))
+                ELSE IF c.lvl = "xarrow" THEN XArrow(<<>>, CPExpr(c.pos)) ELSE CPFn(c.lvl, <<SRet(CPExpr(c.pos))>>)
+CPMake(c) == IF c.kd # "pass" THEN CPClosure(c)
+             ELSE Call(IF c.lvl = "xarrow" THEN XArrow(<<>>, CPClosure(c)) ELSE CPFn(c.lvl, <<SRet(CPClosure(c))>>), <<>>)
+CPOwner(c) ==
+  LET vt == CPVt(c.pos) IN
+  SFun("O", IF c.kd = "param" THEN <<"x">> ELSE <<>>,
+       (IF c.kd = "param" THEN <<>> ELSE <<SVar1("x", CPVal(vt, 1))>>)
+       \o <<SVar1("g", CPMake(c)), SLog(Call(Var("g"), <<>>)), SLog(X), Set("x", CPVal(vt, 2)), SLog(Call(Var("g"), <<>>)), SLog(X), SRet(Var("g"))>>)
+CPProg(c) ==
+  LET vt == CPVt(c.pos)
+      callO == Call(Var("O"), IF c.kd = "param" THEN <<CPVal(vt, 1)>> ELSE <<>>)
+      fn(k) == Fun("", <<"a">>, <<SRet(Plus(Var("a"), I(k)))>>)
+  IN Prog(<<SVar(<<Decl("ar", Arr(<<I(10), I(20), I(30)>>)), Decl("y", I(0)), Decl("A1", Arr(<<I(10), I(11)>>)), Decl("A2", Arr(<<I(20), I(21), I(22)>>)),
+                   Decl("F1", fn(100)), Decl("F2", fn(200)), Decl("O1", Obj(<<"m", "k">>, <<fn(100), I(1)>>)), Decl("O2", Obj(<<"m", "k">>, <<fn(200), I(2)>>)),
+                   Decl("ob", Obj(<<"m1", "m2">>, <<fn(1), fn(2)>>))>>),
+            SFun("id", <<"a">>, <<SRet(Var("a"))>>), CPOwner(c),
+            SVar1("g1", callO), SLog(Call(Var("g1"), <<>>)), SVar1("g2", callO), SLog(Call(Var("g2"), <<>>)), SLog(Call(Var("g1"), <<>>)),
+            SLog(Mem(AR, I(0))), SLog(Mem(AR, I(1))), SLog(Mem(AR, I(2))), SLog(Mem(Var("A1"), I(0))), SLog(Mem(Var("A2"), I(0))), SLog(Var("y")), SLog(I(50))>>)
+CPAll == [pos : CPPositions, kd : {"param", "local", "pass"}, lvl : {"fn", "arrow", "xarrow"}]
+CPValid(c) == c.lvl = "xarrow" => c.pos \in CPExprPos
+\* quick: every position for a local under function expressions and for a parameter under arrows; the member / call positions and
+\* the targets also through a middle function and with expression bodies
+CPQuickSel(c) ==
+  \/ (c.kd = "local" /\ c.lvl = "fn")
+  \/ (c.kd = "param" /\ c.lvl = "arrow")
+  \/ (c.kd = "pass" /\ c.lvl = "xarrow" /\ c.pos \in {"id", "memo", "memk", "masgk", "mupdk", "callee", "arg", "methk", "wasg", "wupd"})
+  \/ (c.kd = "pass" /\ c.lvl = "fn" /\ c.pos \in {"swcase", "forinrhs", "wforin"})
+  \/ c.pos \in {"id", "memk", "wasg"}
+CPCases == {c \in CPAll : CPValid(c) /\ (~Quick \/ CPQuickSel(c))}
+
+\* ======================= family TX: a loop body with two exits, the last statement of the body being one ========================
+\* (round 3, reviewer) Every other family puts one exit statement into a loop body, under an `if`, with code after it.  Here the body
+\* ENDS in a statement after which control never falls out of the body (so the code the loop has after the body - the update of a
+\* `for`, the test of a do-while, the jump back - is reachable only through `continue`), and an earlier exit, taken on the first two
+\* rounds, may `continue` the loop by some route.
+\*   kd  : while, do-while, for (init; test; update), for (init; ; update), for (; test; ), for-in, for-of
+\*   ce  : the early exit on rounds 1, 2: none / `continue` / `continue L` / `continue` in a switch / `continue L` from an inner for /
+\*         `continue` in a try with a finally block
+\*   te  : the last statement of the body: an ordinary statement (none) / break / break L / continue / continue L / return v / throw /
+\*         if-else with an exit in both arms / a nested block ending in break / try { break } finally / break M, continue M (enclosing loop)
+\*   en  : alone, or inside a `for` that runs twice        pl : script level / function whose call is an operand
+TXKinds == {"while", "dowhile", "for", "fornotest", "forbare", "forin", "forof"}
+TXEarly == {"none", "direct", "label", "insw", "infor", "intry"}
+TXLast == {"none", "break", "breakL", "continue", "continueL", "returnv", "throw", "ifelse", "nested", "tryfin", "breakM", "continueM"}
+TXLeaves(te) == te \in {"break", "breakL", "returnv", "throw", "ifelse", "nested", "tryfin", "breakM"}      \* the loop ends by round 3
+NLt3 == Bin("<", N, I(3))
+TXEarlyS(ce) ==
+  CASE ce = "none" -> <<>>
+    [] ce = "direct" -> <<SIf(NLt3, SBlock(<<SCont("")>>), NoS)>>
+    [] ce = "label" -> <<SIf(NLt3, SBlock(<<SCont("L")>>), NoS)>>
+    [] ce = "insw" -> <<SSwitch(N, <<Case(I(1), <<SLog(EStr("s")), SCont("")>>), Case(I(2), <<SCont("")>>), Case(NoE, <<SLog(EStr("d"))>>)>>)>>
+    [] ce = "infor" -> <<SFor(SVar1("jj", I(0)), Bin("<", Var("jj"), I(2)), Asg("jj", Plus(Var("jj"), I(1))),
+                              SBlock(<<SLog(Plus(Var("jj"), I(30))), SIf(NLt3, SBlock(<<SCont("L")>>), NoS)>>))>>
+    [] ce = "intry" -> <<STry(SBlock(<<SIf(NLt3, SBlock(<<SCont("")>>), NoS), SLog(EStr("t"))>>), "e", NoS, SBlock(<<SLog(EStr("F"))>>))>>
+TXLastS(te) ==
+  CASE te = "none" -> <<>>
+    [] te = "break" -> <<SBreak("")>> [] te = "breakL" -> <<SBreak("L")>> [] te = "continue" -> <<SCont("")>> [] te = "continueL" -> <<SCont("L")>>
+    [] te = "returnv" -> <<SRet(I(5))>> [] te = "throw" -> <<SThrow(I(9))>>
+    [] te = "ifelse" -> <<SIf(Bin("==", N, I(3)), SBlock(<<SBreak("")>>), SBlock(<<SCont("")>>))>>
+    [] te = "nested" -> <<SBlock(<<SLog(EStr("b")), SBlock(<<SBreak("")>>)>>)>>
+    [] te = "tryfin" -> <<STry(SBlock(<<SBreak("")>>), "e", NoS, SBlock(<<SLog(EStr("G"))>>))>>
+    [] te = "breakM" -> <<SBreak("M")>> [] te = "continueM" -> <<SCont("M")>>
+TXHasI(kd) == kd \in {"for", "fornotest"}
+TXBody(c) == (IF TXHasI(c.kd) THEN <<SLog(Plus(Var("i"), I(20)))>> ELSE <<>>)
+             \o <<Inc("n"), SLog(N)>> \o TXEarlyS(c.ce) \o <<SLog(Plus(N, I(10)))>> \o TXLastS(c.te)
+NLt4 == Bin("<", N, I(4))
+IUp == Asg("i", Plus(Var("i"), I(1)))
+TXLoop(kd, body) ==
+  CASE kd = "while" -> SWhile(NLt4, SBlock(body))
+    [] kd = "dowhile" -> SDo(SBlock(body), NLt4)
+    [] kd = "for" -> SFor(SVar1("i", I(0)), Bin("<", Var("i"), I(4)), IUp, SBlock(body))
+    [] kd = "fornotest" -> SFor(SVar1("i", I(0)), NoE, IUp, SBlock(body))
+    [] kd = "forbare" -> SFor(NoS, NLt4, NoE, SBlock(body))
+    [] kd = "forin" -> SForIn(TRUE, "k", Obj(<<"a", "b", "c", "d">>, <<I(1), I(2), I(3), I(4)>>), SBlock(body))
+    [] kd = "forof" -> SForOf(TRUE, "v", Arr(<<I(7), I(8), I(9), I(6)>>), SBlock(body))
+TXInner(c) ==
+  LET l0 == TXLoop(c.kd, TXBody(c))
+      l1 == IF c.ce \in {"label", "infor"} \/ c.te \in {"breakL", "continueL"} THEN SLabel("L", l0) ELSE l0
+  IN <<Set("n", I(0)), l1>> \o (IF TXHasI(c.kd) THEN <<SLog(Plus(Var("i"), I(40)))>> ELSE <<>>) \o <<SLog(I(3))>>
+TXCore(c) == <<SVar(<<Decl("n", I(0)), Decl("m", I(0))>>)>>
+             \o Enclose(c.en, IF c.te \in {"breakM", "continueM"} THEN "breakM" ELSE "none", TXInner(c)) \o <<SLog(I(4))>>
+TXProg(c) ==
+  IF c.pl = "top" THEN Prog(Guarded(c.te = "throw", TXCore(c)) \o <<SLog(I(50))>>)
+  ELSE Prog(<<SFun("f", <<>>, TXCore(c) \o <<SRet(I(7))>>)>> \o Guarded(c.te = "throw", <<SLog(Plus(CallF, I(100)))>>) \o <<SLog(I(50))>>)
+TXAll == [kd : TXKinds, ce : TXEarly, te : TXLast, en : {"none", "for"}, pl : {"top", "fn"}]
+TXValid(c) ==
+  /\ (c.kd = "fornotest" => TXLeaves(c.te))                         \* without a test only the body ends the loop
+  /\ (c.te \in {"breakM", "continueM"} <=> c.en = "for")
+  /\ (c.te = "returnv" => c.pl = "fn")
+\* quick: every (loop, last statement) with the plain early `continue` and without an early exit; every (loop, route of the early
+\* exit) with the body ending in break and in return; both placements
+TXQuickSel(c) ==
+  \/ (c.ce \in {"none", "direct"} /\ c.pl = "fn")
+  \/ (c.te \in {"break", "returnv"} /\ c.pl = "fn")
+  \/ (c.te \in {"break", "continue"} /\ c.ce \in {"direct", "label"} /\ c.pl = "top")
+  \/ (c.en = "for" /\ c.ce = "direct")
+TXCases == {c \in TXAll : TXValid(c) /\ (~Quick \/ TXQuickSel(c))}
+
+\* law of the two quick selections (an invariant of the enumeration run): no position, kind, level, loop, route or last statement is
+\* dropped, every position occurs for a variable the owner itself declares, every (loop, last statement) and every (loop, route) occurs
+Round3Coverage ==
+  /\ \A pos \in CPPositions : \E q \in CPCases : q.pos = pos /\ q.kd = "local"
+  /\ \A pos \in CPPositions : \E q \in CPCases : q.pos = pos /\ q.kd = "param"
+  /\ \A kd \in {"param", "local", "pass"}, lvl \in {"fn", "arrow", "xarrow"} : \E q \in CPCases : q.kd = kd /\ q.lvl = lvl
+  /\ \A kd \in TXKinds, te \in TXLast, ce \in {"none", "direct"} :
+        \A en \in {"none", "for"} : LET c == [kd |-> kd, ce |-> ce, te |-> te, en |-> en, pl |-> "fn"] IN TXValid(c) => c \in TXCases
+  /\ \A kd \in TXKinds, ce \in TXEarly : \E q \in TXCases : q.kd = kd /\ q.ce = ce /\ TXLeaves(q.te)
+  /\ \A pl \in {"top", "fn"}, en \in {"none", "for"} : \E q \in TXCases : q.pl = pl /\ q.en = en
+
 \* ======================= the case space ===========================================================
 FamilyProg(cs) == CASE cs.fam = "CF" -> CFProg(cs.c) [] cs.fam = "SW" -> SWProg(cs.c) [] cs.fam = "EO" -> EOProg(cs.c.j)
                     [] cs.fam = "HO" -> HOProg(cs.c.j) [] cs.fam = "CV" -> CVProg(cs.c.j) [] cs.fam = "CL" -> CLProg(cs.c)
                     [] cs.fam = "CH" -> CHProg(cs.c) [] cs.fam = "IR" -> IRFamProg(cs.c)
                     [] cs.fam = "SH" -> SHProg(cs.c) [] cs.fam = "BL" -> BLProg(cs.c)
                     [] cs.fam = "XA" -> XAProg(cs.c) [] cs.fam = "FP" -> FPProg(cs.c) [] cs.fam = "LS" -> LSProg(cs.c)
-Fams == IF "FAMS" \in DOMAIN IOEnv THEN IOEnv.FAMS ELSE "CF SW EO HO CV CL CH IR SH BL XA FP LS"
+                    [] cs.fam = "CP" -> CPProg(cs.c) [] cs.fam = "TX" -> TXProg(cs.c)
+Fams == IF "FAMS" \in DOMAIN IOEnv THEN IOEnv.FAMS ELSE "CF SW EO HO CV CL CH IR SH BL XA FP LS CP TX"
 Has(f) == \E j \in 1..(Len(Fams) - 1) : SubSeq(Fams, j, j + 1) = f
 AllCases == (IF Has("CF") THEN {[fam |-> "CF", c |-> c] : c \in CFCases} ELSE {})
             \cup (IF Has("SW") THEN {[fam |-> "SW", c |-> c] : c \in SWCases} ELSE {})
@@ -858,6 +1022,8 @@ AllCases == (IF Has("CF") THEN {[fam |-> "CF", c |-> c] : c \in CFCases} ELSE {}
             \cup (IF Has("XA") THEN {[fam |-> "XA", c |-> c] : c \in XACases} ELSE {})
             \cup (IF Has("FP") THEN {[fam |-> "FP", c |-> c] : c \in FPCases} ELSE {})
             \cup (IF Has("LS") THEN {[fam |-> "LS", c |-> c] : c \in LSCases} ELSE {})
+            \cup (IF Has("CP") THEN {[fam |-> "CP", c |-> c] : c \in CPCases} ELSE {})
+            \cup (IF Has("TX") THEN {[fam |-> "TX", c |-> c] : c \in TXCases} ELSE {})
 
 \* ======================= state machine around MiniJS ===============================================
 VARIABLES rec_i, cur, mst                \* rec_i: judged record; cur: enumerated case; mst: machine state
